@@ -1,4 +1,5 @@
 import OmbottModel.Drv.Range
+import OmbottModel.Drv.Wsgi
 /-! Dispatch of a protocol line to the area handlers.  `State` holds the few models that are
 driven as state machines across lines (router, multipart feed, header store). -/
 namespace Drv
@@ -17,6 +18,7 @@ def step (st : State) (line : String) : State × String :=
     let pure? (r : Option String) : State × String := (st, r.getD "bad-op")
     match area with
     | "range" => pure? (Range.handle rest)
+    | "wsgi" => pure? (Wsgi.handle rest)
     | _ => (st, "bad-op")
 
 end Drv
